@@ -337,6 +337,10 @@ func (dec *Decoder) ReadReference(p interface{}) {
 
 // ResetReader reuse decoder instance by specifying another reader.
 func (dec *Decoder) ResetReader(reader io.Reader) *Decoder {
+	if dec.reader == nil {
+		// the buffer of a decoder in memory mode is the caller's input, not ours to read into
+		dec.buf = nil
+	}
 	dec.reader = reader
 	dec.head = 0
 	dec.tail = 0
